@@ -24,6 +24,7 @@ namespace PM.C16
 /-- exception classes (the harness maps Python exceptions to these names) -/
 inductive Err where
   | assertion | value | runtime | type | index | notImplemented | unavailable
+  | transport               -- `rpc_handler.create_job` raised (the request was not delivered / was refused)
   | precondition            -- outside the modelled domain: the driver refuses, it never defaults
 deriving DecidableEq, Repr
 
@@ -35,6 +36,7 @@ def Err.name : Err → String
   | .index => "IndexError"
   | .notImplemented => "NotImplementedError"
   | .unavailable => "UnavailableModeException"
+  | .transport => "TransportError"
   | .precondition => "precondition"
 
 abbrev Res := Except Err
@@ -571,7 +573,15 @@ structure World where
   exp : Option Exp                 -- the remote processor
   sampler : Option Sampler
   jobs : List (Job × List (Dict IV))   -- jobs created so far (with the iterator they captured)
-  log : List Sent                  -- calls received by `rpc_handler.create_job`
+  log : List Sent                  -- requests received by the platform through `rpc_handler.create_job`
+deriving DecidableEq, Repr
+
+/-- what happens to the ONE request `rpc_handler.create_job` emits for an execution (the network is
+not under the client's control; the harness scripts it in its fake handler) -/
+inductive Net where
+  | ok        -- delivered; the platform's answer (the job id) comes back
+  | lost      -- delivered — the job now exists platform side — but the answer never comes back (read time-out)
+  | down      -- not delivered (platform unreachable, connection time-out) or refused (HTTP error): no job created
 deriving DecidableEq, Repr
 
 inductive Op where
@@ -592,7 +602,7 @@ inductive Op where
   | addIterations (its : List (Dict IV))
   | clearIterations
   | createJob (method : Method)
-  | execute (job : Nat) (args : List PV) (kw : Dict PV)
+  | execute (job : Nat) (args : List PV) (kw : Dict PV) (net : Net)
 deriving DecidableEq, Repr
 
 inductive Out where
@@ -600,15 +610,30 @@ inductive Out where
   | done
   | payload (pl : Dict V)
   | sent (s : Sent)
+  | lost (s : Sent)                -- the request reached the platform, `create_job` raised all the same
 deriving DecidableEq, Repr
 
+/-- the step made a request reach the platform (a remote job exists) -/
 def Out.isSent : Out → Bool
   | .sent _ => true
+  | .lost _ => true
   | _ => false
 
 def Op.isExecute : Op → Bool
-  | .execute _ _ _ => true
+  | .execute _ _ _ _ => true
   | _ => false
+
+/-- the requests the platform receives when the client calls `create_job(s)` ONCE -/
+def received : Net → Sent → List Sent
+  | .down, _ => []
+  | _, s => [s]
+
+/-- what `execute_async` reports after that single call: `create_job`'s exception is re-raised as it is
+(the job is marked as failed, nothing is re-sent) -/
+def outcome : Net → Sent → Out
+  | .ok, s => .sent s
+  | .lost, s => .lost s
+  | .down, _ => .err .transport
 
 def onExp (w : World) (f : Exp → Res Exp) : World × Out :=
   match w.exp with
@@ -687,7 +712,7 @@ def step (w : World) (op : Op) : World × Out :=
       | (e', .error err) => ({ w with exp := some e' }, .err err)
       | (e', .ok j) => ({ w with exp := some e', jobs := w.jobs ++ [(j, s.iterator)] }, .payload j.payload)
     | _, _ => (w, .err .precondition)
-  | .execute idx args kw =>
+  | .execute idx args kw net =>
     match w.jobs[idx]? with
     | none => (w, .err .precondition)
     | some (j, its) =>
@@ -698,7 +723,7 @@ def step (w : World) (op : Op) : World × Out :=
         | .error err => ({ w with jobs := jobs' }, .err err)
         | .ok pl =>
           let s : Sent := ⟨j.jobName, pl, its⟩
-          ({ w with jobs := jobs', log := w.log ++ [s] }, .sent s)
+          ({ w with jobs := jobs', log := w.log ++ received net s }, outcome net s)
 
 def World.init (pf : Platform) : World := ⟨pf, none, none, [], []⟩
 
